@@ -126,6 +126,11 @@ def main(args: List[str] = tuple(sys.argv[1:])):
     settings_dict = settings.get(
         config_template(output_dir_relative_to_config))
 
+    # confuse's StrSeq template turns any iterable into a list, so a mapping given for
+    # rst.headers would be replaced by its keys instead of being rejected
+    if isinstance(settings["rst"]["headers"].get(), dict):
+        raise ConfigTypeError("rst.headers: must be a list of strings or a string, not a mapping")
+
     settings_obj = dict_to_settings(settings_dict)
 
     # Concatenate all exclude filters rather than overriding the entire list.
